@@ -52,10 +52,10 @@ def BINARY_EVENT := 5
 def BINARY_ACK := 6
 
 /-- `if dash > 10: raise ValueError('too many attachments')` — the most digits an attachment count
-    may have (tied to the source by `Sio.Glue.attDigitLimit_eq`) -/
+    may have (tied to the source by `Sio.GlueCodec.attDigitLimit_eq`) -/
 abbrev attDigitLimit : Nat := 10
 /-- `if not ep[i].isdigit() or i >= 100: break` — the most digits an id may have (tied to the source
-    by `Sio.Glue.idDigitLimit_eq`) -/
+    by `Sio.GlueCodec.idDigitLimit_eq`) -/
 abbrev idDigitLimit : Nat := 100
 
 /-! ### binary deconstruction / reconstruction -/
